@@ -346,6 +346,7 @@ def judge(ctx, scens, obs, models, replaying=False):
         "multiplexer lanes are one-in/one-out pipelines (the documented contract); a lane that drops or multiplies items is outside the alphabet",
         "worker count, lane count and batch size >= 1; items are non-nil (queue.New drops nil travelers by construction)",
         "the models assume sequentially consistent memory: the unsynchronised `closed` flag of engine/queue is a data race judged by C17, here only its observable effect on the histories is checked",
+        "ChannelMux.AddPipeline called while runMux is running (pipelines added on first use, as gripper/graph.go does and as half of the mux scenarios do) is an unsynchronised write/read of the outputs slice (seen with -race); like queue's flag it is C17 material - no history on amd64 deviated",
         "liveness on the real code is a deadline: no caller operation completed for 20 s => hang, reported only if it reproduces twice, else inconclusive",
         "a history longer than %d inputs is validated along its most permissive linearisation only (complete, see StreamTrace.tla)" % EXPLORE_MAX,
         "the in-flight bound uses buffer sizes read from the code; exceeding it is MODEL-DRIFT, never a violation",
